@@ -2,6 +2,7 @@ import STProofs.EnergyGrad
 import STProofs.CubicEnergyGrad
 import STProofs.QuinticEnergyGrad
 import STProofs.SepticEnergyGrad
+import STProofs.NDEnergy
 /-!
 # C06 — analytic energy gradients equal the true derivatives of the reported energy (every N, positive durations)
 
@@ -19,6 +20,10 @@ All three sentences of the property are theorems, for all three orders:
   `cubic_analytic_grads`: `propagateGrad(partials)` *is* the closed forms, component by component.  Quintic / septic:
   envelope argument — the pull-back onto interior knot derivatives cancels by the optimality conditions
   (`seg1_energy`, `segPairV_jump`, `quintic_KKT` / `septic_KKT`).
+
+In D dimensions (the object the user holds): `NDEnergy.energyND_grad` — the dual part of the D-dimensional spline's energy is
+the pairing of its published `energyGrad` (inner points, durations, boundary blocks) with the tangent of waypoints,
+durations and boundary states; Σ over coordinates of the 1-D theorems (`col_energy`).
 -/
 open ST
 
